@@ -756,7 +756,12 @@ class SyncState:  # pylint: disable=too-many-instance-attributes, too-many-publi
     def forget_oid(self, side, oid):
         ent = self._oids[side].pop(oid, None)
         if ent:
-            self._paths[side][ent[side].path].pop(oid)
+            bucket = self._paths[side].get(ent[side].path)
+            if bucket is not None:
+                bucket.pop(oid, None)
+                if not bucket:
+                    del self._paths[side][ent[side].path]
+            self._changeset_storage.discard(ent)
 
     def forget(self):
         self._oids = ({}, {})
